@@ -3,7 +3,7 @@ from ..core import ok, violation
 from ..gen import draw_cfg, gen_history, envelope_ok, emit_user_op, OP_KINDS
 from ..restart import RestartRun
 from ..hist import Stop
-from ..engine import MUTATORS
+from ..engine import MUTATORS, InvalidTrace
 from .. import oracles as O
 
 ID = "C06"
@@ -11,11 +11,12 @@ LEVEL = "exploration"
 RULE = ("Hypothesis-generated envelope histories (one-sided or two-sided disjoint, 4 id/path flavours) with 1-3 "
         "stop/start cycles placed at arbitrary step boundaries; between 'down' and 'up' users may change either side "
         "(offline changes); restart modes: storage intact / cursor rows removed / stored cursor rejected by the "
-        "provider / walk marker removed.  Oracles: both roots equal the expected merged tree at every quiet point "
+        "provider / walk marker removed.  In a third of the cycles the stop request reaches an event loop in the middle of "
+        "a batch (after k = 0..3 events of that intake step: CloudSync.stop() from another thread).  Oracles: both roots equal the expected merged tree at every quiet point "
         "(nothing lost, duplicated or flagged '.conflicted'); after a restart at a quiet point with no offline "
         "change the engine issues no provider mutation and no download until users act again (no re-transfer).  "
         "Non-trivial = a restart with pending work (non-empty change set or undelivered events) or with offline user "
-        "ops; distinct = distinct trace digest.")
+        "ops or a stop in the middle of an intake batch; distinct = distinct trace digest.")
 ASSUMPTIONS = [
     "mock providers; a 'new process' is modelled by resetting both providers' in-memory event cursor to latest and building a new CloudSync over the same storage contents",
     "envelope hazards PATH_REUSE, DIRMOVE_ISOLATED, DIRMOVE_TOMB, XSIDE as for C03/C04",
@@ -55,6 +56,10 @@ def gen(d, tier):
         if d.chance(1, 3):
             acts.append(["settle"])
             world.settle()
+        if d.chance(1, 3):
+            # the stop request arrives while an event loop is in the middle of a batch (CloudSync.stop() from another
+            # thread): that intake step hands k events to the engine, then sees the stop flag
+            acts.append(["stopstep", d.choice(("EL", "ER")), d.int(0, 3)])
         acts.append(["down"])
         for _ in range(d.int(0, 3)):
             emit_user_op(d, world, acts, d.choice(sides), kinds=kinds)
@@ -71,7 +76,7 @@ def gen(d, tier):
 
 
 def in_domain(trace):
-    acts = [a for a in trace["acts"] if a[0] not in ("down", "up")]
+    acts = [a for a in trace["acts"] if a[0] not in ("down", "up", "stopstep")]
     if not envelope_ok(dict(trace, acts=acts)):
         return False
     # cursor-losing restarts: only create/write/mkdir in the surrounding windows
@@ -83,12 +88,14 @@ def in_domain(trace):
             if any(a[0] == "u" and a[2] not in ("create", "write", "mkdir") for a in win):
                 return False
     depth = 0
-    for a in acts:
+    for i, a in enumerate(acts):
         if a[0] == "down":
             depth += 1
         elif a[0] == "up":
             depth -= 1
-        elif a[0] in ("step", "settle") and depth:
+        elif a[0] in ("step", "settle", "stopstep") and depth:
+            return False
+        if a[0] == "stopstep" and (i + 1 >= len(acts) or acts[i + 1][0] != "down"):
             return False
         if depth not in (0, 1):
             return False
@@ -114,6 +121,32 @@ class Run(RestartRun):
                     raise Stop(violation("no_retransfer", "restart (%s) at a quiet point with no offline change, yet the engine issued %s" % (
                         w["mode"], [(c["side"], c["name"], c["path"]) for c in bad[:4]])))
 
+    def special(self, act):
+        if act[0] != "stopstep":
+            return super().special(act)
+        if self.is_down:
+            raise InvalidTrace("stopstep while down")
+        _, who, k = act
+        side = 0 if who == "EL" else 1
+        emgr = self.case.cs.emgrs[side]
+        left = [k]
+
+        def mangler(case, prov, orig):
+            if prov._vf_side != side:
+                yield from orig(prov)
+                return
+            for ev in orig(prov):
+                if left[0] <= 0:
+                    emgr.stop(forever=True, wait=False)     # what CloudSync.stop() does, seen between two events
+                left[0] -= 1
+                yield ev
+        self.case.event_mangler = mangler
+        try:
+            self.do_step(who)
+        finally:
+            self.case.event_mangler = None
+        self.stats["stop_mid_intake"] = self.stats.get("stop_mid_intake", 0) + 1
+
     def after_restart(self, info):
         if info["quiet"] and not info["pending"] and not info["offline_ops"]:
             self.watch = info
@@ -129,6 +162,9 @@ class Run(RestartRun):
         cfg = self.trace["cfg"]
         labs = ["flavour:%s/%s" % (cfg["L"], cfg["R"])]
         nt = False
+        if self.stats.get("stop_mid_intake"):
+            labs.append("stop_mid_intake")
+            nt = True
         for r in self.restarts:
             labs.append("restart:" + r["mode"])
             if r["offline_ops"]:
